@@ -261,6 +261,15 @@ type runner struct {
 	mu    sync.Mutex
 	sc    scenario
 	nemit int
+	// emits during a TCP connect call are logged after the call's event; sequence number of the last SYN per local port
+	hold   bool
+	held   []M
+	synSeq map[int]uint32
+}
+
+func (r *runner) isTCP(sid int) bool {
+	s, ok := r.socks[sid]
+	return ok && s.typ == "tcp"
 }
 
 func (r *runner) netProto(v int) tcpip.NetworkProtocolNumber {
@@ -648,7 +657,7 @@ func runScenario(si int, sc scenario, tr *vh.Trace) {
 	if sc.Fwd {
 		h.S.SetForwarding(true)
 	}
-	r := &runner{h: h, tr: tr, socks: map[int]*sock{}, sc: sc}
+	r := &runner{h: h, tr: tr, socks: map[int]*sock{}, sc: sc, synSeq: map[int]uint32{}}
 	addrs := [][]interface{}{}
 	for _, n := range sc.Nics {
 		for _, a := range n.Addr4 {
@@ -666,6 +675,16 @@ func runScenario(si int, sc scenario, tr *vh.Trace) {
 			ev := decodeFrame(f, nic, sc.RawLog)
 			r.mu.Lock()
 			r.nemit++
+			if ev["kind"] == "tcp" && ev["flags"] == "S" {
+				// the SYN of an active open: scripts refer to its sequence number (inject ... ackofport)
+				r.synSeq[vh.Int(ev["sport"])<<16|vh.Int(ev["dport"])] = uint32(vh.Int(ev["seqhi"]))<<16 | uint32(vh.Int(ev["seqlo"]))
+			}
+			if r.hold {
+				// emitted while a TCP connect call is in progress: logged after the call's own event
+				r.held = append(r.held, ev)
+				r.mu.Unlock()
+				return
+			}
 			r.mu.Unlock()
 			tr.Log(ev)
 		}
@@ -678,6 +697,14 @@ func runScenario(si int, sc scenario, tr *vh.Trace) {
 				if k != "op" {
 					res[k] = v
 				}
+			}
+			if _, ok := op["ackofport"]; ok {
+				// acknowledge exactly the SYN this stack sent from that local port
+				r.mu.Lock()
+				a := r.synSeq[geti(op, "ackofport", 0)<<16|geti(op, "sport", 0)] + 1
+				r.mu.Unlock()
+				op["ackhi"], op["acklo"] = int(a>>16), int(a&0xffff)
+				res["ackhi"], res["acklo"] = op["ackhi"], op["acklo"]
 			}
 			for _, k := range []string{"sport", "dport"} {
 				if _, ok := op[k]; ok {
@@ -697,7 +724,25 @@ func runScenario(si int, sc scenario, tr *vh.Trace) {
 			r.fragmix(op, tr)
 			continue
 		}
+		holdEmits := vh.Str(op["op"]) == "connect" && r.isTCP(geti(op, "s", -1))
+		if holdEmits {
+			r.mu.Lock()
+			r.hold = true
+			r.mu.Unlock()
+		}
 		res := r.do(op)
+		if holdEmits {
+			tr.Log(res)
+			r.mu.Lock()
+			r.hold = false
+			held := r.held
+			r.held = nil
+			r.mu.Unlock()
+			for _, ev := range held {
+				tr.Log(ev)
+			}
+			continue
+		}
 		if lp, ok := res["lport"]; ok {
 			if sid, ok2 := res["s"]; ok2 && res["err"] == "" {
 				lastPort[vh.Int(sid)] = lp.(int)
